@@ -16,11 +16,18 @@ RULE = ("every MARKS(n) graph (per pair one of none,->,<-,<->,--,o-o,o->,<-o) n<
         "the object is edited in place into the target graph, then judged - state kept across calls must not go stale; "
         "label stream: str/tuple/bigint/int257/frozenset/char labels with every query label built by a separate call "
         "(equal, not identical objects; falsy label 0 used as first/second/forbid node throughout); "
+        "LARGE/DEEP stream (run by extra(), quick: 6 graphs, thorough: 22): o-o / mixed p.d. chains of 200-700 nodes with leaf "
+        "side branches (trees: the chain is the only simple path, so a path exists iff the chain is valid), o-o grids 12x12..20x20, "
+        "collider chains of 150-400 nodes; expected = verdict of the extracted verified checker on a closed-form candidate path "
+        "(valid => a path exists), every returned path judged by the same checker (found=True with an empty path is a violation), "
+        "recursion head-room 120 frames (_reclimit; both functions are iterative at HEAD); "
         "distinct by (canonical graph, warm-up graph, label family); non-trivial = some query has a path and some has none")
 EXHAUSTIVE = {"quick": "all MARKS(n) n<=3 x all queries", "thorough": "all MARKS(n) n<=3 x all queries"}
 TRUSTED = ["PAG construction (add_edge guards), MixedEdgeGraph.neighbors/has_edge taken at face value",
            "CPython iteration order of a set of ints 0..7 is ascending (order-faithful model of uncovered_pd_path)"]
-ASSUMPTIONS = ["default edge-type names", "int node labels 0..7 (label families: C15)", "max_path_length=None only",
+ASSUMPTIONS = ["LARGE stream: non-existence is only asserted on trees (unique simple path); graphs stay below the documented "
+               "budget of 1000 visited nodes that max_path_length=None stands for",
+               "default edge-type names", "int node labels 0..7 (label families: C15)", "max_path_length=None only",
                "forbid_node read as the implementation does: it constrains the first node the search takes (the node "
                "after u, or after second_node when that is given)",
                "a path has at least one edge after u (u == c has no path)"]
@@ -172,7 +179,7 @@ def with_rep(case, rng):
     return dict(case, rep=g0, kind=case["kind"] + "+rep") if g0 is not None else case
 
 
-LAB_FAMILIES = ["str", "tuple", "bigint", "int257", "frozenset", "char"]
+LAB_FAMILIES = ["str", "tuple", "bigint", "int257", "frozenset", "char", "obj", "mixed"]
 
 
 def gen_cases(tier, rng):
@@ -184,11 +191,11 @@ def gen_cases(tier, rng):
         if g["D"] or g["B"] or g["U"] or g["C"]:
             yield with_rep({"kind": "marks3", "g": g, "qs": all_queries(g["V"])}, rng)
     kinds = gr.MARK_KINDS
-    for i in range(600 if quick else 12000):
+    for i in range(520 if quick else 12000):
         g = gr.from_kinds(4, [rng.choice(kinds) for _ in gr.pairs(4)])
         case = {"kind": "marks4s", "g": g, "qs": pick_queries(g["V"], rng, 240 if quick else None)}
         yield with_rep(case, rng) if i % 4 == 0 else case
-    for i in range(220 if quick else 6000):
+    for i in range(180 if quick else 6000):
         g = gr.from_kinds(5, [rng.choice(kinds) if rng.random() < 0.7 else "none" for _ in gr.pairs(5)])
         case = {"kind": "marks5s", "g": g, "qs": pick_queries(g["V"], rng, 200)}
         yield with_rep(case, rng) if i % 4 == 0 else case
@@ -197,7 +204,7 @@ def gen_cases(tier, rng):
         g = gr.random_kinds_graph(rng, n, kinds, p_edge=rng.choice([0.25, 0.4, 0.55]), acyclic=False)
         case = {"kind": "rand", "g": g, "qs": pick_queries(g["V"], rng, 150)}
         yield with_rep(case, rng) if i % 4 == 0 else case
-    for i in range(360 if quick else 5000):
+    for i in range(320 if quick else 5000):
         # collider chains, 5-8 nodes in the majority (several parents of c, several bidirected neighbours)
         n = rng.randint(4, 8) if i % 3 == 0 else rng.randint(5, 7)
         g = planted(rng, n)
@@ -223,7 +230,140 @@ def gen_cases(tier, rng):
         yield {"kind": "labels", "g": g, "qs": qs, "_lab": rng.choice(LAB_FAMILIES), "_order": rng.randrange(1000)}
 
 
+# ------------------------------------------------------------------ LARGE / DEEP stream (run by extra(), not spot-checked)
+FLIP = {"->": "<-", "<-": "->", "o->": "<-o", "<-o": "o->"}
+
+
+def graph_of_edges(n, edges):
+    """edges: (a, b, kind) with the kind written for the ordered pair (a, b)"""
+    g = {"V": list(range(n)), "D": [], "B": [], "U": [], "C": []}
+    for a, b, k in edges:
+        for layer, es in gr.PAIR_KINDS[k].items():
+            for (i, j) in es:
+                g[layer].append([(a, b)[i], (a, b)[j]])
+    return g
+
+
+def large_chain(rng, n, kinds, leaves, bad=None):
+    """tree: chain 0..n-1 plus leaves; the chain is the ONLY simple path from 0 to n-1 (a tree has exactly one), so it is
+    the only candidate: an uncovered p.d. path exists iff the chain is one"""
+    edges = [(i, i + 1, rng.choice(kinds)) for i in range(n - 1)]
+    if bad is not None:
+        edges[bad] = (bad, bad + 1, rng.choice(["<-", "<->", "--", "<-o"]))
+    for j in range(leaves):
+        edges.append((rng.randrange(1, n - 1), n + j, rng.choice(gr.MARK_KINDS[1:])))
+    g = graph_of_edges(n + leaves, edges)
+    path = list(range(n))
+    circ = all(k == "o-o" for _, _, k in edges[:n - 1])
+    qs, cand, expect = [], [], []
+
+    def add(q, p, e):
+        qs.append(q), cand.append(p), expect.append(e)
+    ok = bad is None
+    add([0, 0, n - 1, [], [], [], 0], path, ok)
+    if n <= 450:
+        add([0, 0, n - 1, [], [1], [], 0], path, ok)
+        add([0, 0, n - 1, [], [], [], 1], path, ok and circ)
+        add([0, 1, n - 1, [0], [], [], 0], path, ok)
+        add([0, 0, n - 1, [], [], [1], 0], path, False)          # the only path is forbidden
+        add([0, 0, n - 1, [], [1], [2], 0], path, False)
+        if circ:
+            add([0, n - 1, 0, [], [], [], 1], path[::-1], ok)
+    return {"kind": "large:chain%d" % n, "g": g, "qs": qs, "cand": cand, "expect": expect, "_reclimit": 120}
+
+
+def large_grid(rng, r, c):
+    """r x c grid of o-o edges: no triangles and nodes two steps apart are not adjacent, so the path along the first
+    row and down the last column is an uncovered circle path (validated by the checker)"""
+    nid = lambda i, j: i * c + j  # noqa: E731
+    edges = [(nid(i, j), nid(i, j + 1), "o-o") for i in range(r) for j in range(c - 1)]
+    edges += [(nid(i, j), nid(i + 1, j), "o-o") for i in range(r - 1) for j in range(c)]
+    g = graph_of_edges(r * c, edges)
+    far = [nid(0, j) for j in range(c)] + [nid(i, c - 1) for i in range(1, r)]
+    near = [nid(0, 0), nid(0, 1), nid(1, 1)]
+    mid = [nid(0, j) for j in range(c // 2 + 1)] + [nid(i, c // 2) for i in range(1, r // 2 + 1)]
+    qs, cand, expect = [], [], []
+    for p in (far, near, mid):
+        for fc in (0, 1):
+            qs.append([0, p[0], p[-1], [], [], [], fc]), cand.append(p), expect.append(True)
+    qs.append([0, far[0], far[-1], [], [far[1]], [], 0]), cand.append(far), expect.append(True)
+    return {"kind": "large:grid%dx%d" % (r, c), "g": g, "qs": qs, "cand": cand, "expect": expect, "_reclimit": 120}
+
+
+def large_disc(rng, k):
+    """v=0 *-> 1 <-> 2 <-> ... <-> k <-* u=k+1, every collider -> c=k+2, u *-* c, plus a few side nodes:
+    (0, 1, .., k, u, c) is a discriminating path for (u, a=k, c) (validated by the checker)"""
+    u, c = k + 1, k + 2
+    edges = [(0, 1, rng.choice(["->", "<->", "o->"]))]
+    edges += [(i, i + 1, "<->") for i in range(1, k)]
+    edges += [(u, k, rng.choice(["->", "<->", "o->"])), (u, c, rng.choice(["->", "<-", "o-o", "<->"]))]
+    edges += [(i, c, "->") for i in range(1, k + 1)]
+    n = k + 3
+    for j in range(5):      # side branches: spouses of colliders that are adjacent to c but no parents of c
+        edges.append((rng.randrange(1, k), n + j, "<->"))
+        edges.append((n + j, c, "<->"))
+    g = graph_of_edges(n + 5, edges)
+    path = list(range(0, k + 1)) + [u, c]
+    return {"kind": "large:disc%d" % k, "g": g, "qs": [[1, u, k, c]], "cand": [path], "expect": [True], "_reclimit": 120}
+
+
+def large_cases(tier, rng):
+    pdk = ["->", "o->", "o-o"]
+    yield large_chain(rng, 540, ["o-o"], 0)
+    yield large_chain(rng, rng.randint(300, 420), pdk, 12)
+    yield large_chain(rng, rng.randint(200, 300), pdk, 8, bad=rng.randint(50, 150))
+    yield large_grid(rng, 20, 20)
+    yield large_grid(rng, rng.randint(12, 16), rng.randint(12, 16))
+    yield large_disc(rng, rng.randint(200, 300))
+    if tier != "quick":
+        for _ in range(4):
+            yield large_chain(rng, rng.randint(450, 700), ["o-o"] if rng.random() < 0.5 else pdk, rng.randint(0, 20))
+            yield large_chain(rng, rng.randint(300, 450), pdk, rng.randint(0, 20), bad=rng.randint(10, 250))
+            yield large_grid(rng, rng.randint(12, 20), rng.randint(12, 20))
+            yield large_disc(rng, rng.randint(150, 400))
+
+
+def _eval_large(case):
+    import framework as fw
+    line = sxmod_dumps(encode(case))
+    out = fw._run_shard((fw.BIN + "/c18", [line]))[0]
+    import sx as _sx
+    if out.startswith("!error"):
+        return case, {"model_error": out}, None, "model_error"
+    model = decode(case, _sx.loads(out))
+    impl = fw._impl_worker((case, IMPL_TIMEOUT))
+    return case, model, impl, compare(case, impl, model)
+
+
+_LARGE_STATS = {}
+
+
+def extra(ctx, pool):
+    """the LARGE / DEEP stream: long chains, grids, long collider chains (150-700 nodes), recursion head-room 120 frames"""
+    import random
+    rng = random.Random("%s:large" % ctx["seed"])
+    cases = list(large_cases(ctx["tier"], rng))
+    out = []
+    res = pool.map(_eval_large, cases, chunksize=1)
+    for case, model, impl, r in res:
+        if r is not None:
+            small = {k: v for k, v in case.items()}
+            out.append({"reason": "impl differs from proved checker / closed form on %s (LARGE stream, %s)" % (r, case["kind"]),
+                        "found_input": True, "correspondence": "K:C18:%s" % r, "case": small, "impl": impl, "model": model,
+                        "problems": problems(case, impl, model)[:10] if r != "model_error" else [],
+                        "how_to_replay": "cd /verif && ./check C18 --replay <this file>"})
+    _LARGE_STATS.update(large_cases=len(cases), large_queries=sum(len(c["qs"]) for c in cases),
+                        large_nodes_max=max(len(c["g"]["V"]) for c in cases), large_failing=len(out))
+    return out
+
+
+def coverage_extra(ctx):
+    return dict(_LARGE_STATS)
+
+
 def encode(case):
+    if "cand" in case:      # LARGE stream: check mode, the verified checker judges one closed-form candidate path per query
+        return [1, gr.enc(case["g"]), [[q, p] for q, p in zip(case["qs"], case["cand"])]]
     return [0, gr.enc(case["g"]), case["qs"]]
 
 
@@ -234,6 +374,8 @@ NOT_FOUND = {"found": False, "path": []}
 
 def decode(case, v):
     """per query a dict; the overwhelmingly common answer "no path, nothing found" is stored as 0 (memory)"""
+    if "cand" in case:
+        return [int(b) for b in v]
     out = []
     for r in v:
         d = {"code": r[0], "paths": sorted(r[1]), "sfound": r[2], "spath": r[3]}
@@ -317,8 +459,58 @@ PRIORITY = ["model-soundness", "model-vs-oracle", "argument-mutated", "invalid-p
 KNOWN_KEY_A = "discriminating_path:a-with-circle-mark-accepted-as-parent-of-c"
 
 
+def check_paths(g, entries):
+    """verdicts of the verified checker (extracted updp_valid_b / disc_valid_b) on [(query, path)]"""
+    import subprocess
+    import framework as fw
+    if not entries:
+        return []
+    line = sxmod_dumps([1, gr.enc(g), [[q, p] for q, p in entries]])
+    out = subprocess.run([fw.BIN + "/c18"], input=line + "\n", stdout=subprocess.PIPE, text=True,
+                         env=dict(fw.ENV, OCAMLRUNPARAM="s=4M,l=8G")).stdout.strip()
+    import sx as _sx
+    return [int(b) for b in _sx.loads(out)]
+
+
+def sxmod_dumps(v):
+    import sx as _sx
+    return _sx.dumps(v)
+
+
+def problems_large(case, impl, model):
+    """LARGE stream: model[i] = verdict of the verified checker on the closed-form candidate of query i.
+    candidate valid  => a path exists (c18_updp_valid_b_spec / c18_disc_valid_b_spec), found must be True;
+    expect False     => the graph is a tree, the candidate is its unique simple path and it is invalid: found must be False;
+    every returned path is judged by the same verified checker (found=True with an empty path is invalid)."""
+    out = []
+    if "exc" in impl:
+        return [(-1, "exception")]
+    if impl["mutated"]:
+        out.append((-1, "argument-mutated"))
+    tocheck = []
+    for i, q in enumerate(case["qs"]):
+        r = r_at(impl, i)
+        if bool(model[i]) != bool(case["expect"][i]):
+            out.append((i, "model-vs-oracle"))       # the closed form stated by the generator is wrong
+        elif "exc" in r:
+            out.append((i, "exception"))
+        elif r["found"]:
+            if not case["expect"][i]:
+                out.append((i, "invalid-path"))       # no path exists at all
+            else:
+                tocheck.append((i, q, r["path"]))
+        elif case["expect"][i]:
+            out.append((i, "not-found"))
+    for (i, q, p), ok in zip(tocheck, check_paths(case["g"], [(q, p) for _, q, p in tocheck])):
+        if not ok:
+            out.append((i, "invalid-path"))
+    return sorted(out)
+
+
 def problems(case, impl, model):
     """list of (query index, class)"""
+    if "cand" in case:
+        return problems_large(case, impl, model)
     out = []
     if "exc" in impl:
         return [(-1, "exception")]
@@ -355,6 +547,12 @@ def compare(case, impl, model):
 
 
 def classify(case, impl, model):
+    if "cand" in case:
+        return None
+    return classify_small(case, impl, model)
+
+
+def classify_small(case, impl, model):
     """known class: uncovered_pd_path says found=False although a path exists, the returned values are otherwise
     fine, and (int labels) the order-faithful global-explored-set model reproduces found=False"""
     ps = problems(case, impl, model)
@@ -382,6 +580,8 @@ def gr_is_parent(g, a, c):
 
 
 def nontrivial(case, model):
+    if "cand" in case:
+        return True
     codes = {0 if m == 0 else m["code"] for m in model}
     return 0 in codes and 1 in codes
 
@@ -391,6 +591,10 @@ def key(case):
 
 
 def shrink(case):
+    if "cand" in case:
+        for i in range(len(case["qs"])) if len(case["qs"]) > 1 else []:
+            yield dict(case, qs=[case["qs"][i]], cand=[case["cand"][i]], expect=[case["expect"][i]])
+        return
     qs = case["qs"]
     if len(qs) > 1:
         for i in range(len(qs)):
